@@ -40,16 +40,12 @@ impl<S: Read<u8> + Write<u8>> Interface for Usart<S> {
                             }
                         };
 
-                        loop {
+                        while frame.len() < expected_length as usize {
                             match block!(self.serial.read()) {
                                 Ok(byte) => frame.push(byte),
                                 Err(_) => {
                                     return Err(InterfaceError::UsartError(UsartError::ReadError))
                                 }
-                            }
-
-                            if frame.len() == expected_length as usize {
-                                break;
                             }
                         }
 
